@@ -2045,7 +2045,13 @@ fn tx_scenario(k: u64, f: &mut Feat) -> Result<Transaction, JsError> {
         let d = if g.chance(1, 2) { OutputDatum::new_data_hash(&g.data_hash()) } else { OutputDatum::new_data(&g.plutus_data(1)) };
         tb.add_change_if_needed_with_datum(&change_addr, &d)?; f.set("change_with_datum");
     } else { tb.add_change_if_needed(&change_addr)?; }
-    let tx = tb.build_tx()?;
+    // build_tx re-validates the balance with Value's structural equality, which happens to refuse a body whose outputs carry an
+    // entry the inputs do not; TransactionBuilder::build() (the body alone, also public) does not: when a degenerate requested
+    // output got past add_output, judge what build() releases
+    let tx = if f.v.contains(&"degenerate_requested_output") {
+        f.set("body_via_build");
+        Transaction::new(&tb.build()?, &TransactionWitnessSet::new(), None)
+    } else { tb.build_tx()? };
     let outs = tx.body().outputs();
     let mut n_change = 0; let mut n_change_ma = 0;
     for i in explicit_outs..outs.len() { n_change += 1; if outs.get(i).amount().multiasset().is_some() { n_change_ma += 1; } }
